@@ -75,6 +75,17 @@ def polynomial_from_attributes(
         polynomial(0)
 
     """
+    # Like numpy.array on the coefficients together: common type and shape,
+    # settled before any term is dropped, such that neither depends on the
+    # values. The cast comes first as well: it may turn a term into zeros.
+    coefficients = [numpy.asarray(coefficient) for coefficient in coefficients]
+    if coefficients:
+        if dtype is None:
+            dtype = numpy.result_type(*coefficients)
+        coefficients = [
+            numpy.asarray(coefficient, dtype=dtype)
+            for coefficient in numpy.broadcast_arrays(*coefficients)
+        ]
     exponents, coefficients, names = clean.postprocess_attributes(
         exponents=exponents,
         coefficients=coefficients,
@@ -83,10 +94,6 @@ def polynomial_from_attributes(
         retain_names=retain_names,
     )
     if coefficients:
-        # like numpy.array on the coefficients together: common type and shape
-        if dtype is None:
-            dtype = numpy.result_type(*coefficients)
-        coefficients = list(numpy.broadcast_arrays(*coefficients))
         shape = coefficients[0].shape
     else:
         dtype = dtype if dtype else int
